@@ -334,6 +334,105 @@ def immutable_case(ctx, i, terms, info):
         info.append(case)
 
 
+def blacklist_case(ctx, i, terms, info):
+    """A gateway with an access.blacklist wraps the listed children in ProhibitedNode.  What it packs must be exactly what
+    a gateway without blacklist packs: the read-cap field holds the read-only form of the child's cap, and the entry
+    unpacks (anywhere) to the same (rw, ro) pair."""
+    import os
+    from allmydata import dirnode
+    from allmydata.blacklist import Blacklist, ProhibitedNode
+    from core import env
+    r = ctx.rng("blacklist", i)
+    tbl = D.CapTable()
+    nm, store = D.make_nodemaker(r)
+    wk, fp = D.rb(r, 16), D.rb(r, 32)
+    kids = []
+    for _ in range(r.choice([1, 2, 3, 4, 6, 10])):
+        roll = r.random()
+        if roll < 0.5:
+            flav = r.choice(["SSK", "MDMF", "DIR2", "DIR2-MDMF"])
+            cw, cr = tbl.add_pair(D.gen_mutable_pair(r, flav))
+            w, ro, label = r.choice([(cw.s, None, "rw-" + flav), (cw.s, cr.s, "rw-" + flav), (None, cr.s, "ro-" + flav)])
+        elif roll < 0.75:
+            flav = r.choice(["CHK", "DIR2-CHK", "LIT"])
+            c = tbl.add(D.gen_imm(r, flav))
+            w, ro, label = None, c.s, "imm-" + flav
+        else:
+            w, ro, label = D.gen_child_caps(r, tbl, allow_odd=False)
+        kids.append((D.gen_name(r), w, ro, label, D.gen_metadata(r)))
+    kids = dedupe(kids)
+    plain = [nm.create_from_cap(w, ro) for (_, w, ro, _, _) in kids]
+    keep = [k for k, n in zip(kids, plain) if getattr(n, "error", None) is None]
+    plain = [n for n in plain if getattr(n, "error", None) is None]
+    kids = keep
+    sis = [n.get_storage_index() for n in plain]
+    listed = sorted(set(si for si in sis if si is not None and r.random() < 0.7))
+    path = os.path.join(env.subdir("c19-blacklist"), "access-%d.blacklist" % i)
+    with open(path, "wb") as f:
+        f.write(b"# storage indexes this gateway refuses to serve\n")
+        for si in listed:
+            f.write(D.b32(si) + b" prohibited by the operator\n")
+    nm_bl, _ = D.make_nodemaker(ctx.rng("blacklist-gw", i), store=store, blacklist=Blacklist(path))
+    wrapped = [nm_bl.create_from_cap(w, ro) for (_, w, ro, _, _) in kids]
+    nwrapped = len([n for n in wrapped if isinstance(n, ProhibitedNode)])
+    case = {"stream": "blacklist", "index": i, "kids": [[k[0], k[1], k[2], k[3]] for k in kids], "blacklisted_storage_indexes": listed, "writekey": wk.hex()}
+    ctx.case(("b", tuple((k[0], k[1], k[2]) for k in kids), tuple(listed)) if nwrapped else None, kind="blacklist:%s" % ("wrapped" if nwrapped else "none-listed"))
+    for k, n in zip(kids, wrapped):
+        if isinstance(n, ProhibitedNode):
+            ctx.count("blacklisted-child:" + k[3])
+    if nwrapped != len([si for si in sis if si in listed]):
+        ctx.note("blacklist case %d: %d children wrapped, %d listed" % (i, nwrapped, len([si for si in sis if si in listed])))
+    first_p, final_p = final_children(kids, plain)
+    first_b, final_b = final_children(kids, wrapped)
+    try:
+        packed_plain = dirnode.pack_children({k: (v[0], v[1]) for k, v in first_p.items()}, wk)
+        packed_bl = dirnode.pack_children({k: (v[0], v[1]) for k, v in first_b.items()}, wk)
+    except Exception as e:
+        ctx.oracle_fail("pack-children-raises-on-valid-children", "packing on a gateway with a blacklist raised %s: %s" % (type(e).__name__, e), case=case)
+        return
+    # every entry: cleartext read-cap field = read-only form of the child's cap, write-cap field decrypts to its write cap
+    for (nameb, rof, rwc, rw, mdb) in D.read_packed(packed_bl, wk, strict=False):
+        o0 = D.node_obs(final_p[nameb.decode("utf-8")][0])
+        if rof != D.strip_prefix_expected(o0[2] or b"", False) or (rw or b"") != (o0[1] or b""):
+            ctx.oracle_fail("blacklisted-child-packed-with-wrong-caps",
+                            "entry %r packed on a gateway whose blacklist lists the child: read-cap field %r, write cap %r; the child's caps are %r / %r"
+                            % (nameb.decode("utf-8", "replace"), rof, rw, o0[2], o0[1]), case=dict(case, entry=nameb),
+                            expected=[o0[1], o0[2]], observed=[rw, rof])
+    if packed_bl != packed_plain:
+        ctx.oracle_fail("packed-bytes-depend-on-blacklist", "the same children pack to different bytes on a gateway with a blacklist", case=case,
+                        expected=packed_plain, observed=packed_bl)
+    # the entry unpacks, on a gateway without blacklist, to the same (rw, ro) pair -- through the write cap and through the read cap
+    dn = D.dir_from_writekey(nm, wk, fp)
+    dnro = nm.create_from_cap(dn.get_readonly_uri())
+    for view_name, d_ in (("write cap", dn), ("read cap", dnro)):
+        got = d_._unpack_contents(packed_bl)
+        for name, (n0, md0, label) in final_p.items():
+            o0 = D.node_obs(n0)
+            want_rw = o0[1] if view_name == "write cap" else None
+            if name not in got:
+                ctx.oracle_fail("blacklisted-child-lost", "child %r packed on a blacklisting gateway is missing when unpacked through the %s" % (name, view_name), case=case)
+                continue
+            o1 = D.node_obs(got[name][0])
+            if o0[0] != "unknown" and (o1[1], o1[2]) != (want_rw, o0[2]):
+                ctx.oracle_fail("blacklisted-child-unpacks-to-other-caps", "child %r packed on a blacklisting gateway unpacks (through the %s) to %r / %r instead of %r / %r"
+                                % (name, view_name, o1[1], o1[2], want_rw, o0[2]), case=dict(case, name=name), expected=[want_rw, o0[2]], observed=[o1[1], o1[2]])
+    # the blacklisting gateway itself sees the same caps behind its wrappers
+    dn_bl = nm_bl.create_from_cap(dn.get_uri())
+    for name, (n1, md1) in dn_bl._unpack_contents(packed_bl).items():
+        o0 = D.node_obs(final_p[name][0])
+        if o0[0] != "unknown" and (n1.get_write_uri(), n1.get_readonly_uri()) != (o0[1], o0[2]):
+            ctx.oracle_fail("blacklisted-child-unpacks-to-other-caps", "child %r read back on the blacklisting gateway reports %r / %r" % (name, n1.get_write_uri(), n1.get_readonly_uri()),
+                            case=dict(case, name=name), expected=[o0[1], o0[2]], observed=[n1.get_write_uri(), n1.get_readonly_uri()])
+    # ---- model: a blacklist wrapper is transparent to the packer
+    if len(kids) <= 4 and i < ctx.n(10, 150):
+        rws = [D.node_obs(n)[1] or b"" for n in plain]
+        t = ("let cls := %s in let nrm := %s in let aes := %s in let kids := %s in "
+             "match pack_children nrm bytes dumps_raw aes kids (Some %s) false with inl _ => false | inr d => list_N_eqb d %s end"
+             % (tbl.coq(), coq_norm(kids), aes_table(wk, rws), coq_kids(kids, "cls", False), D.B(wk), D.B(packed_bl)))
+        terms.append(t)
+        info.append(case)
+
+
 LEGACY_NAMES = ["e\u0301", "cafe\u0301.txt", "\u212b", "A\u030a", "\u00c5", "\u1112\u1161\u11ab", "\ud55c", "a\u0301\u0323", "q\u0307\u0323",
                 "n\u0303o", "\u00f1o", "\u2126", "\uf900", "o\u0323\u0308", "plain", "x", "\u0958", "\u1100\u1161"]
 
@@ -479,6 +578,7 @@ def run(ctx):
     ctx.correspondence("immutable-pack-model-vs-dirnode")
     ctx.correspondence("recorded-refuted-examples")
     ctx.correspondence("legacy-unpack-model-vs-dirnode")
+    ctx.correspondence("blacklist-gateway-pack-model-vs-dirnode")
     terms, info = [], []
     for i in range(ctx.n(220, 2500)):
         mutable_case(ctx, i, terms, info)
@@ -490,10 +590,13 @@ def run(ctx):
     nimm = len(terms)
     for i in range(ctx.n(45, 600)):
         legacy_case(ctx, i, terms, info)
+    nleg = len(terms)
+    for i in range(ctx.n(60, 600)):
+        blacklist_case(ctx, i, terms, info)
     refuted_witnesses(ctx)
     bad = ctx.coq_check(IMPORTS, terms, preamble=PREAMBLE, tag="c19", shard=max(18, (len(terms) + 6) // 7))
     for ix in bad:
-        corr = "pack-unpack-model-vs-dirnode" if ix < nmut else ("immutable-pack-model-vs-dirnode" if ix < nimm else "legacy-unpack-model-vs-dirnode")
+        corr = "pack-unpack-model-vs-dirnode" if ix < nmut else ("immutable-pack-model-vs-dirnode" if ix < nimm else ("legacy-unpack-model-vs-dirnode" if ix < nleg else "blacklist-gateway-pack-model-vs-dirnode"))
         ctx.mismatch("model-vs-impl:" + info[ix]["stream"], "Coq model of pack/unpack and dirnode.py differ on this directory",
                      case=info[ix], correspondence=corr)
     ctx.trace(len(terms) - len(bad))
@@ -510,6 +613,8 @@ def replay(ctx, rec):
         immutable_case(ctx, i, terms, info)
     elif stream == "legacy":
         legacy_case(ctx, i, terms, info)
+    elif stream == "blacklist":
+        blacklist_case(ctx, i, terms, info)
     else:
         return {"note": "record carries no generated case"}
     bad = ctx.coq_check(IMPORTS, terms, preamble=PREAMBLE, tag="c19replay")
